@@ -616,6 +616,9 @@ class HammingReward(Rewards):
         argmax = self._argmax
         comparable,shape = extract_shape(action,argmax[0],True)
 
+        if isinstance(comparable,str) or not hasattr(comparable,'__iter__'):
+            comparable = [comparable] #a single label is the label set {label}
+
         n_intersect = 0
 
         for a in comparable: n_intersect += a in self._argmax
